@@ -540,7 +540,24 @@ class WorldA:
             return {"status": "noop"}
         before = {b: self.params_digest(self.circs[b]) for b in c.bases}
         seed_rng(op["seed"])
-        c.cc.reset_parameters()
+        fault = op.get("fault")
+        if fault is not None:
+            # an exception in the middle of a re-initialisation: some tensors are redrawn, some
+            # are not - one more in-place update; everything derived must follow it
+            try:
+                with FAULT_SEAM.arm(fault["at"], fault.get("when", "before")):
+                    c.cc.reset_parameters()
+                self.tr.count("fault:not-reached")
+            except SimFault:
+                self.tr.count(f"fault:fired:{FAULT_SEAM.last_fired}")
+                self.tr.count("fault:fired")
+                self.tr.ev("fault", FAULT_SEAM.last_fired)
+                changed = [b for b in c.bases if self.params_digest(self.circs[b]) != before[b]]
+                for b in changed:
+                    self._mutated(self.circs[b])
+                return {"status": "faulted", "mutated": changed, "recheck": True}
+        else:
+            c.cc.reset_parameters()
         info: dict[str, Any] = {"status": "ok", "reset": c}
         if c.kind == "base":
             self._mutated(c)
@@ -577,6 +594,15 @@ class WorldA:
         for b in changed:
             self._mutated(self.circs[b])
         return {"status": "ok", "mutated": changed, "burst": c, "resets": n}
+
+    def op_mode(self, op: dict[str, Any]) -> dict[str, Any]:
+        """Switch a compiled circuit between training and evaluation mode (what a training loop
+        does around validation): no parameter changes, so nothing it computes may change."""
+        c = self.get(op["target"])
+        if c is None:
+            return {"status": "noop"}
+        c.cc.train(bool(op.get("train", False)))
+        return {"status": "ok", "recheck": True}
 
     def op_save(self, op: dict[str, Any]) -> dict[str, Any]:
         c = self.get(op["target"])
@@ -1073,7 +1099,8 @@ class WorldA:
 
     def after(self, op: dict[str, Any], info: dict[str, Any]) -> None:
         live = self.alive()
-        mutating = bool(info.get("mutated")) or info.get("restart") or "born" in info or "reset" in info
+        mutating = (bool(info.get("mutated")) or info.get("restart") or "born" in info
+                    or "reset" in info or info.get("recheck"))
         if mutating and live:
             # a seeded subset after every mutating step; everything at the end
             k = self.plan["config"].get("check_subset", 3)
